@@ -300,3 +300,15 @@ func repoGlobal(n string) bool {
 	}
 	return false
 }
+
+func isRangeVar(info *types.Info, rs *ast.RangeStmt, o types.Object) bool {
+	if o == nil {
+		return false
+	}
+	for _, x := range []ast.Expr{rs.Key, rs.Value} {
+		if id, ok := x.(*ast.Ident); ok && info.ObjectOf(id) == o {
+			return true
+		}
+	}
+	return false
+}
